@@ -1,0 +1,19 @@
+//go:build verif
+
+package pool
+
+import "github.com/go-netty/go-netty/utils/pool/internal/pmath"
+
+// re-exports of the internal size-class arithmetic for the out-of-tree
+// runtime monitors (only compiled with the verif build tag).
+
+func VerifCeilToPowerOfTwo(n int) int  { return pmath.CeilToPowerOfTwo(n) }
+func VerifFloorToPowerOfTwo(n int) int { return pmath.FloorToPowerOfTwo(n) }
+func VerifIsPowerOfTwo(n int) bool     { return pmath.IsPowerOfTwo(n) }
+
+// VerifShard reports the size class and shard index Get(size) uses, and the
+// number of shards.
+func (p *Pool[T]) VerifShard(size int) (class, idx, shards, step int) {
+	n := p.size(size)
+	return n, (n - 1) / p.stepSize, len(p.pool), p.stepSize
+}
